@@ -465,10 +465,45 @@ def _(ctx):
             ok, det = False, 'extraction: %s' % e
         ctx.record('processor.' + name, PROVED if ok else FAILED, 'B', 0, det)
 
-@obligation('C13.program.no_uncaught_exception', fns=[('src/gm2calc.cpp', 'main')])
+def replay_malformed_sweep(model, wd):
+    """run the REAL program on structure-aware damaged copies of the three shipped example inputs: every numeric token of every block header and of every third
+    data line is replaced by nan / 1e400 / 0x / 1.0e3GeV / empty; the program must end with exit status 0 or 1 (never by a signal) and a failure exit must carry a
+    diagnostic (stderr or SPINFO 4)"""
+    from gm2v import native
+    from gm2v.world import REPO
+    import subprocess, os, re
+    exe = native.build_gm2calc()
+    bad = []
+    n = 0
+    for fname, opt in (('example.slha', '--slha-input-file=-'), ('example.gm2', '--gm2calc-input-file=-'), ('example.thdm', '--thdm-input-file=-')):
+        lines = open(os.path.join(REPO, 'input', fname)).read().split('\n')
+        for li, ln in enumerate(lines):
+            body = ln.split('#')[0]
+            is_head = body.strip().lower().startswith('block')
+            if not body.strip() or (not is_head and li % 3):
+                continue
+            toks = list(re.finditer(r'(?<![A-Za-z_])[-+]?[0-9][0-9.eE+-]*', body))
+            for m in toks:
+                for rep in ('nan', '1e400', '0x', '1.0e3GeV', ''):
+                    new = lines[:li] + [ln[:m.start()] + rep + ln[m.end():]] + lines[li + 1:]
+                    n += 1
+                    try:
+                        r = subprocess.run([exe, opt], input='\n'.join(new), capture_output=True, text=True, timeout=60)
+                    except subprocess.TimeoutExpired:
+                        bad.append('%s line %d token %r -> %r: no termination within 60 s' % (fname, li + 1, m.group(0), rep))
+                        continue
+                    if r.returncode not in (0, 1):
+                        bad.append('%s line %d (%s) token %r -> %r: exit status %d%s' % (fname, li + 1, ln.strip()[:40], m.group(0), rep, r.returncode,
+                                   ' (killed by signal %d)' % -r.returncode if r.returncode < 0 else '') + ' ' + r.stderr.strip()[:120])
+                    elif r.returncode == 1 and not r.stderr.strip() and ' 4 ' not in r.stdout:
+                        bad.append('%s line %d token %r -> %r: exit 1 without diagnostic' % (fname, li + 1, m.group(0), rep))
+    return bool(bad), '%d damaged inputs run, %d out of contract; first: %s' % (n, len(bad), ' || '.join(bad[:3]))
+
+@obligation('C13.program.no_uncaught_exception', fns=[('src/gm2calc.cpp', 'main')], replay=replay_malformed_sweep)
 def _(ctx):
-    """exception-effect inference on main(): every exception class that the body of main's try block may raise is caught by its handlers
-    (so that a malformed input ends with exit status 1 and a diagnostic, never with std::terminate)"""
+    """exception-effect inference on main(): every exception class that the body of main's try block may raise is caught by its handlers, and no exception can
+    reach the boundary of a noexcept function on the way (that would be std::terminate, which no handler stops) -- so a malformed input ends with exit status 1
+    and a diagnostic, never with std::terminate"""
     from gm2v.effects import Effects
     from gm2v import cxx
     ef = Effects(ctx.w)
@@ -481,6 +516,9 @@ def _(ctx):
     env = {'__cls': None, '__file': fd.file, 'slha_io': 'GM2_slha_io', 'config_options': 'Config_options', 'options': 'Gm2_cmd_line_options'}
     raised = ef.stmt(trs[0].body, env, None)
     esc = ef.stmt(trs[0], env, None)
-    ctx.record('', PROVED if not esc else FAILED, 'B', 0, 'raised inside the try block: %s; escaping its handlers: %s' % (sorted(raised), sorted(esc)),
+    if ef.noexcept_violations:
+        ctx.notes.append('noexcept functions whose body may throw: %s' % ef.noexcept_violations)
+    ctx.record('', PROVED if not esc else FAILED, 'B', 0, 'raised inside the try block: %s; escaping its handlers: %s%s' % (sorted(raised), sorted(esc),
+               ('; exceptions reaching a noexcept boundary: %s' % {k: sorted(v) for k, v in ef.noexcept_violations.items()}) if ef.noexcept_violations else ''),
                solver='exception-effect inference', model={'escaping': sorted(esc)} if esc else None)
     ctx.record('vacuity', PROVED if {'EReadError', 'EInvalidInput', 'EPhysicalProblem'} <= raised else ERROR, 'B', 0, 'the analysis sees the documented exception classes: %s' % sorted(raised))
